@@ -17,6 +17,7 @@ C_CfgsCache == {Cfg(2, -1, 0, -1, TRUE), Cfg(2, -1, 1, -1, TRUE), Cfg(2, -1, -1,
 C_CfgsOne   == {Cfg(2, -1, 0, -1, TRUE)}
 C_CfgsRot   == {Cfg(2, -1, -1, -1, TRUE), Cfg(1, -1, -1, -1, TRUE)}
 C_CfgsRot3  == {Cfg(3, -1, -1, -1, TRUE)}
+C_CfgsCrashCache == {Cfg(2, -1, 0, -1, TRUE), Cfg(3, -1, 1, -1, TRUE)}
 \* crash instances: rotation after 2 / 3 records and no rotation at all; tail truncation on and off
 C_CfgsCrash == {Cfg(2, -1, -1, -1, TRUE), Cfg(3, -1, -1, -1, TRUE), Cfg(-1, -1, -1, -1, TRUE), Cfg(-1, -1, -1, -1, FALSE)}
 =============================================================================
